@@ -6,6 +6,9 @@
 //!    edits, truncation, splices) and random bytes, plus adversarial 64 KiB packets, through every
 //!    network entry point (Message, MessageRequest, Record, RData, Name) under catch_unwind and a
 //!    watchdog; one event per call with outcome / consumed / name limits / elapsed time.
+//! `grammar` (C01 + C02): records unfolded from the TLA+ record grammar (GrammarOps / Gen_Grammar); the
+//!    driver only serialises wire primitives (it has no table of record types), embeds the record in a
+//!    message as the case's context says, and reports what every entry point did with it.
 //! `record-roundtrip` (C02): random structurally valid messages -> encode -> independent wire
 //!    walker (name layouts) -> decode -> compare; accepted byte strings re-encoded and compared.
 use std::io::{self, BufRead, Write as _};
@@ -558,7 +561,9 @@ fn random_message(rng: &mut StdRng, recs: &[Record], big: bool) -> Message {
         let mut e = Edns::new();
         e.set_max_payload([512u16, 1232, 4096, 65535][rng.random_range(0..4)]);
         e.set_dnssec_ok(rng.random_bool(0.5));
-        e.set_rcode_high((rc >> 4) as u8);
+        // the header's response code is what the message says; an Edns taken over from another
+        // (decoded) message may still carry that message's upper RCODE bits
+        e.set_rcode_high(if rng.random_bool(0.25) { rng.random() } else { (rc >> 4) as u8 });
         if rng.random_bool(0.5) {
             e.options_mut().insert(EdnsOption::Subnet(ClientSubnet::new("192.0.2.0".parse().unwrap(), 24, 0)));
         }
@@ -591,7 +596,15 @@ fn record_roundtrip(seed: u64, n_cases: usize, trace: &mut dyn io::Write) {
             Ok(Ok(bytes)) => {
                 let dec = catch_unwind(AssertUnwindSafe(|| Message::from_vec(&bytes)));
                 let (decoded, diffs) = match &dec {
-                    Ok(Ok(m2)) => (true, messages_equal(&m, m2)),
+                    Ok(Ok(m2)) => {
+                        // what the message says: the OPT's upper RCODE bits are those of its response code
+                        let mut exp = m.clone();
+                        let high = exp.metadata.response_code.high();
+                        if let Some(e) = exp.edns.as_mut() {
+                            e.set_rcode_high(high);
+                        }
+                        (true, messages_equal(&exp, m2))
+                    }
                     _ => (false, vec!["undecodable"]),
                 };
                 writeln!(trace, "{}", json!({"ev":"rt1","case":id,"encoded":true,"decoded":decoded,"equal":diffs.is_empty(),"diffs":diffs,"len":bytes.len(),
@@ -676,6 +689,308 @@ fn record_roundtrip(seed: u64, n_cases: usize, trace: &mut dyn io::Write) {
     }
 }
 
+// ------------------------------------------------------------------------------------------
+// grammar mode: primitives -> bytes
+
+const QNAME_AT: usize = 12;
+/// offset of the first record (after the header and the question www.example.com. A IN)
+const REC_AT: usize = 12 + 17 + 4;
+
+fn name_shape(v: &str, at: usize) -> Vec<u8> {
+    fn labels(ls: &[&[u8]]) -> Vec<u8> {
+        let mut o = Vec::new();
+        for l in ls {
+            o.push(l.len() as u8);
+            o.extend_from_slice(l);
+        }
+        o.push(0);
+        o
+    }
+    let l63 = [b'x'; 63];
+    match v {
+        "plain" => labels(&[b"ns1", b"example", b"net"]),
+        "root" => vec![0],
+        "upper" => labels(&[b"NS1", b"Example", b"NET"]),
+        "label63" => labels(&[&l63, b"net"]),
+        "long255" => labels(&[&l63, &l63, &l63, &[b'y'; 61]]),
+        "toolong256" => labels(&[&l63, &l63, &l63, &[b'y'; 62]]),
+        "label64" => {
+            let mut o = vec![64u8];
+            o.extend_from_slice(&[b'z'; 64]);
+            o.push(0);
+            o
+        }
+        "ptr" => vec![0xC0, QNAME_AT as u8],
+        "lblptr" => vec![3, b'a', b'b', b'c', 0xC0, QNAME_AT as u8],
+        "ptrchain" => vec![0xC0, REC_AT as u8],
+        "ptrself" => vec![0xC0 | ((at >> 8) as u8 & 0x3F), at as u8],
+        "ptrfwd" => vec![0xC0 | (((at + 2) >> 8) as u8 & 0x3F), (at + 2) as u8],
+        "cut" => vec![9, b'a', b'b'],
+        "hmac-sha256" => labels(&[b"hmac-sha256"]),
+        "hmac-sha512" => labels(&[b"hmac-sha512"]),
+        other => panic!("unknown name shape {other}"),
+    }
+}
+
+/// serialise a sequence of primitives; `at` = absolute offset of the first octet in the message
+fn prims_bytes(ps: &Value, at: usize) -> Vec<u8> {
+    let mut o = Vec::new();
+    for p in ps.as_array().map(|a| a.as_slice()).unwrap_or(&[]) {
+        match p["p"].as_str().unwrap() {
+            "u" => {
+                let w = p["w"].as_u64().unwrap() as usize;
+                let n = p["n"].as_i64().unwrap();
+                if n < 0 {
+                    o.extend(std::iter::repeat(0xFF).take(w));
+                } else {
+                    let b = (n as u64).to_be_bytes();
+                    o.extend_from_slice(&b[8 - w..]);
+                }
+            }
+            "b" => o.extend(std::iter::repeat(p["f"].as_u64().unwrap() as u8).take(p["n"].as_u64().unwrap() as usize)),
+            "x" => o.extend(p["bytes"].as_array().map(|a| a.as_slice()).unwrap_or(&[]).iter().map(|x| x.as_u64().unwrap() as u8)),
+            "name" => o.extend(name_shape(p["v"].as_str().unwrap(), at + o.len())),
+            "len" => {
+                let w = p["w"].as_u64().unwrap() as usize;
+                let body = prims_bytes(&p["body"], at + o.len() + w);
+                let max = if w == 1 { 255i64 } else { 65535 };
+                let n = (body.len() as i64 + p["d"].as_i64().unwrap()).clamp(0, max) as u64;
+                o.extend_from_slice(&n.to_be_bytes()[8 - w..]);
+                o.extend(body);
+            }
+            other => panic!("unknown primitive {other}"),
+        }
+    }
+    o
+}
+
+struct Built {
+    msg: Vec<u8>,
+    /// where the RDATA of the record under test starts / how long RDLENGTH says it is / how many octets were written
+    rdata_at: usize,
+    rdlen: usize,
+    rdata: Vec<u8>,
+    /// one past the record under test as RDLENGTH frames it
+    rec_end: usize,
+}
+
+fn build_case(c: &Value) -> Built {
+    let ctx = &c["ctx"];
+    let code = c["code"].as_u64().unwrap() as u16;
+    let opcode = ctx["opcode"].as_u64().unwrap() as u8;
+    let follow = ctx["follow"] == "more";
+    let nrec: u16 = if follow { 2 } else { 1 };
+    let (an, ns, ar) = match ctx["sec"].as_str().unwrap() {
+        "an" => (nrec, 0, 0),
+        "ns" => (0, nrec, 0),
+        _ => (0, 0, nrec),
+    };
+    let mut m = vec![0x12, 0x34, (opcode << 3) | 0x01, 0x00, 0, 1];
+    for cnt in [an, ns, ar] {
+        m.extend_from_slice(&cnt.to_be_bytes());
+    }
+    m.extend_from_slice(b"\x03www\x07example\x03com\x00\x00\x01\x00\x01");
+    assert_eq!(m.len(), REC_AT);
+    // the record under test
+    let class: u16 = if code == 41 { 1232 } else { ctx["class"].as_u64().unwrap() as u16 };
+    let ttl: u32 = if code == 41 || code == 250 { 0 } else { 300 };
+    if code == 41 {
+        m.push(0);
+    } else {
+        m.extend_from_slice(&[0xC0, QNAME_AT as u8]);
+    }
+    m.extend_from_slice(&code.to_be_bytes());
+    m.extend_from_slice(&class.to_be_bytes());
+    m.extend_from_slice(&ttl.to_be_bytes());
+    let rdata_at = m.len() + 2;
+    let mut rdata = prims_bytes(&c["prims"], rdata_at);
+    let rdlen = match ctx["rdlen"].as_str().unwrap() {
+        "exact" => rdata.len(),
+        "zero" => {
+            rdata.clear();
+            0
+        }
+        "minus1" => rdata.len().saturating_sub(1),
+        "plus1" => rdata.len() + 1,
+        "pad1" => {
+            rdata.push(0);
+            rdata.len()
+        }
+        other => panic!("unknown rdlen policy {other}"),
+    }
+    .min(65535);
+    m.extend_from_slice(&(rdlen as u16).to_be_bytes());
+    m.extend_from_slice(&rdata);
+    if follow {
+        m.extend_from_slice(&[0xC0, QNAME_AT as u8, 0, 1, 0, 1, 0, 0, 1, 44, 0, 4, 198, 51, 100, 7]);
+    }
+    Built { rec_end: rdata_at + rdlen, msg: m, rdata_at, rdlen, rdata }
+}
+
+fn thread_cpu_us() -> u64 {
+    let mut ts = libc::timespec { tv_sec: 0, tv_nsec: 0 };
+    // SAFETY: plain syscall writing into a local
+    unsafe { libc::clock_gettime(libc::CLOCK_THREAD_CPUTIME_ID, &mut ts) };
+    ts.tv_sec as u64 * 1_000_000 + ts.tv_nsec as u64 / 1000
+}
+
+fn outcome_of<T>(r: std::thread::Result<Result<T, String>>) -> (String, String, Option<T>) {
+    match r {
+        Ok(Ok(v)) => ("ok".into(), String::new(), Some(v)),
+        Ok(Err(e)) => ("err".into(), e, None),
+        Err(p) => {
+            let msg = p.downcast_ref::<&str>().map(|s| s.to_string()).or_else(|| p.downcast_ref::<String>().cloned()).unwrap_or_default();
+            ("PANIC".into(), msg, None)
+        }
+    }
+}
+
+/// everything the entry points do with one grammar case (runs on a worker thread)
+fn grammar_case(c: &Value) -> Value {
+    let b = build_case(c);
+    let bytes = &b.msg;
+    let code = c["code"].as_u64().unwrap() as u16;
+    let t0 = thread_cpu_us();
+    // full message, then the re-encoding fixpoint and the byte-for-byte clause
+    let (m_out, m_err, m_val) = outcome_of(catch_unwind(AssertUnwindSafe(|| Message::from_vec(bytes).map_err(|e| e.to_string()))));
+    let mut msg = json!({"out": m_out, "err": m_err, "fix": "n/a", "rdataSame": "n/a", "limits": true, "present": "n/a"});
+    if let Some(m1) = m_val {
+        let (l, w) = name_limits(&message_names(&m1));
+        msg["limits"] = json!(l <= 63 && w <= 255);
+        // is the record under test part of what was decoded (as a record, as EDNS, or as the signature)?
+        let n_rec = m1.answers.len() + m1.authorities.len() + m1.additionals.len() + m1.edns.is_some() as usize + m1.signature.is_some() as usize;
+        msg["present"] = json!(n_rec >= 1);
+        let re = catch_unwind(AssertUnwindSafe(|| m1.to_vec().map_err(|e| e.to_string())));
+        match outcome_of(re) {
+            (o, e, None) => msg["fix"] = json!(format!("reencode-{o}:{e}")),
+            (_, _, Some(bytes2)) => {
+                let (o2, e2, m2) = outcome_of(catch_unwind(AssertUnwindSafe(|| Message::from_vec(&bytes2).map_err(|e| e.to_string()))));
+                match m2 {
+                    None => msg["fix"] = json!(format!("redecode-{o2}:{e2}")),
+                    Some(m2) => {
+                        let d = messages_equal(&m1, &m2);
+                        msg["fix"] = if d.is_empty() { json!("equal") } else { json!(format!("differs:{}", d.join(","))) };
+                    }
+                }
+                // the record under test is the first record of the message, in the original and in the re-encoding
+                if let Some(w2) = walk(&bytes2) {
+                    if let Some((t2, s2, e2, _)) = w2.recs.first() {
+                        if *t2 == code {
+                            msg["rdataSame"] = json!(bytes2[*s2..*e2] == b.rdata[..]);
+                            if bytes2[*s2..*e2] != b.rdata[..] {
+                                msg["reRdata"] = json!(bytes2[*s2..*e2].to_vec());
+                            }
+                        } else {
+                            msg["rdataSame"] = json!(format!("first-record-type-{t2}"));
+                        }
+                    } else {
+                        msg["rdataSame"] = json!("no-record");
+                    }
+                }
+            }
+        }
+    }
+    let t1 = thread_cpu_us();
+    let (q_out, q_err, _) = outcome_of(catch_unwind(AssertUnwindSafe(|| {
+        let src: SocketAddr = "192.0.2.1:53".parse().unwrap();
+        Request::from_bytes(bytes.to_vec(), src, Protocol::Udp).map(|_| ()).map_err(|e| e.to_string())
+    })));
+    let t2 = thread_cpu_us();
+    let (r_out, r_err, r_val) = outcome_of(catch_unwind(AssertUnwindSafe(|| {
+        let mut d = BinDecoder::new(bytes).clone(REC_AT as u16);
+        let r = Record::read(&mut d).map_err(|e| e.to_string())?;
+        let (l, w) = name_limits(&[&r.name]);
+        Ok((d.index(), l <= 63 && w <= 255))
+    })));
+    let t3 = thread_cpu_us();
+    let (d_out, d_err, _) = outcome_of(catch_unwind(AssertUnwindSafe(|| {
+        let mut d = BinDecoder::new(bytes).clone(b.rdata_at as u16);
+        let sub = d.split_off(b.rdlen).map_err(|e| e.to_string())?;
+        RData::read(sub, RecordType::from(code)).map(|_| ()).map_err(|e| e.to_string())
+    })));
+    let t4 = thread_cpu_us();
+    json!({"ev": "g", "case": c["id"], "kind": c["kind"], "type": c["type"], "code": code, "tags": c["tags"], "ctx": c["ctx"],
+        "len": bytes.len(), "rdlen": b.rdlen, "recEnd": b.rec_end,
+        "msg": msg, "req": {"out": q_out, "err": q_err},
+        "rec": {"out": r_out, "err": r_err, "next": r_val.map(|v| v.0 as i64).unwrap_or(-1), "limits": r_val.map(|v| v.1).unwrap_or(true)},
+        "rdata": {"out": d_out, "err": d_err},
+        "cpuUs": [t1 - t0, t2 - t1, t3 - t2, t4 - t3]})
+}
+
+/// a persistent worker thread running `f` on jobs; `call` gives None if the worker does not come back
+/// within `secs` (it is then left behind, spinning, and replaced)
+struct Worker<J: Send + 'static, R: Send + 'static> {
+    f: fn(J) -> R,
+    tx: mpsc::Sender<J>,
+    rx: mpsc::Receiver<R>,
+}
+impl<J: Send + 'static, R: Send + 'static> Worker<J, R> {
+    fn new(f: fn(J) -> R) -> Self {
+        let (tx, jrx) = mpsc::channel::<J>();
+        let (rtx, rx) = mpsc::channel::<R>();
+        std::thread::Builder::new()
+            .stack_size(16 << 20)
+            .spawn(move || {
+                while let Ok(j) = jrx.recv() {
+                    if rtx.send(f(j)).is_err() {
+                        return;
+                    }
+                }
+            })
+            .unwrap();
+        Self { f, tx, rx }
+    }
+    fn call(&mut self, j: J, secs: u64) -> Option<R> {
+        self.tx.send(j).unwrap();
+        match self.rx.recv_timeout(Duration::from_secs(secs)) {
+            Ok(r) => Some(r),
+            Err(_) => {
+                *self = Self::new(self.f);
+                None
+            }
+        }
+    }
+}
+
+fn read_name_job((buf, start): (Vec<u8>, usize)) -> Result<Result<(Value, usize), String>, ()> {
+    catch_unwind(AssertUnwindSafe(|| {
+        let mut d = BinDecoder::new(&buf).clone(start as u16);
+        Name::read(&mut d).map(|n| (labels_json(&n), d.index())).map_err(|e| e.to_string())
+    }))
+    .map_err(|_| ())
+}
+
+fn grammar_mode(trace: &mut dyn io::Write, out: &mut dyn io::Write) {
+    let mut hangs = 0;
+    let mut n = 0usize;
+    let mut worker: Worker<Value, Value> = Worker::new(|c| grammar_case(&c));
+    for line in io::stdin().lock().lines() {
+        let line = line.unwrap();
+        if line.trim().is_empty() {
+            continue;
+        }
+        let c: Value = serde_json::from_str(&line).unwrap();
+        n += 1;
+        let ev = match worker.call(c.clone(), 20) {
+            Some(ev) => ev,
+            None => {
+                hangs += 1;
+                let b = build_case(&c);
+                json!({"ev": "g", "case": c["id"], "kind": c["kind"], "type": c["type"], "code": c["code"], "tags": c["tags"], "ctx": c["ctx"],
+                    "len": b.msg.len(), "rdlen": b.rdlen, "recEnd": b.rec_end,
+                    "msg": {"out": "HANG", "err": "", "fix": "n/a", "rdataSame": "n/a", "limits": true, "present": "n/a"},
+                    "req": {"out": "HANG", "err": ""}, "rec": {"out": "HANG", "err": "", "next": -1, "limits": true},
+                    "rdata": {"out": "HANG", "err": ""}, "cpuUs": [0, 0, 0, 0], "bytes": b.msg})
+            }
+        };
+        writeln!(trace, "{ev}").unwrap();
+        if hangs >= 3 {
+            break;
+        }
+    }
+    writeln!(out, "{}", json!({"cases": n, "hangs": hangs})).unwrap();
+}
+
 fn main() {
     let args: Vec<String> = std::env::args().collect();
     let mode = args.get(1).map(String::as_str).unwrap_or("");
@@ -707,6 +1022,8 @@ fn main() {
     }
     match mode {
         "replay-names" => {
+            let mut hung = 0;
+            let mut worker: Worker<(Vec<u8>, usize), _> = Worker::new(read_name_job);
             for (ln, line) in io::stdin().lock().lines().enumerate() {
                 let line = line.unwrap();
                 if line.trim().is_empty() {
@@ -715,17 +1032,22 @@ fn main() {
                 let c: Value = serde_json::from_str(&line).unwrap();
                 let buf: Vec<u8> = c["buf"].as_array().unwrap().iter().map(|x| x.as_u64().unwrap() as u8).collect();
                 let start = c["start"].as_u64().unwrap() as usize;
-                let r = catch_unwind(AssertUnwindSafe(|| {
-                    let mut d = BinDecoder::new(&buf).clone(start as u16);
-                    Name::read(&mut d).map(|n| (labels_json(&n), d.index())).map_err(|e| e.to_string())
-                }));
+                // a reader that does not come back is an observation (HANG), not a dead driver
+                let r = worker.call((buf.clone(), start), 20);
                 let exp_ok = c["ok"].as_bool().unwrap();
                 let (ok, obs) = match r {
-                    Ok(Ok((labels, next))) => (exp_ok && labels == c["labels"] && next as u64 == c["next"].as_u64().unwrap(), json!({"ok": true, "labels": labels, "next": next})),
-                    Ok(Err(e)) => (!exp_ok, json!({"ok": false, "error": e})),
-                    Err(_) => (false, json!({"ok": false, "error": "PANIC"})),
+                    Some(Ok(Ok((labels, next)))) => (exp_ok && labels == c["labels"] && next as u64 == c["next"].as_u64().unwrap(), json!({"ok": true, "labels": labels, "next": next})),
+                    Some(Ok(Err(e))) => (!exp_ok, json!({"ok": false, "error": e})),
+                    Some(Err(_)) => (false, json!({"ok": false, "error": "PANIC"})),
+                    None => {
+                        hung += 1;
+                        (false, json!({"ok": false, "error": "HANG"}))
+                    }
                 };
-                writeln!(out, "{}", json!({"case": ln, "ok": ok, "class": if obs["error"] == "PANIC" { "panic" } else if exp_ok { "valid-name-refused-or-misread" } else { "invalid-name-accepted" },
+                if hung > 3 {
+                    break;
+                }
+                writeln!(out, "{}", json!({"case": ln, "ok": ok, "class": if obs["error"] == "PANIC" { "panic" } else if obs["error"] == "HANG" { "hang" } else if exp_ok { "valid-name-refused-or-misread" } else { "invalid-name-accepted" },
                     "nontrivial": buf.iter().any(|b| *b >= 192), "observed": obs, "input": c})).unwrap();
             }
         }
@@ -777,12 +1099,13 @@ fn main() {
                 }
             }
         }
+        "grammar" => grammar_mode(&mut trace, &mut out),
         "record-roundtrip" => {
             record_roundtrip(seed, n_cases, &mut trace);
             writeln!(out, "{}", json!({"cases": n_cases})).unwrap();
         }
         _ => {
-            eprintln!("usage: drive_wire replay-names|record-decode|record-roundtrip");
+            eprintln!("usage: drive_wire replay-names|record-decode|record-roundtrip|grammar");
             std::process::exit(2);
         }
     }
